@@ -51,7 +51,7 @@ def prepare(repo, scratch):
         add = "\n"
         for p in ps:
             stem = os.path.splitext(os.path.basename(p))[0]
-            add += '#[cfg(kani)]\n#[path = "%s"]\nmod __verif_%s;\n' % (p, stem)
+            add += '#[cfg(kani)]\n#[path = "%s"]\npub(crate) mod __verif_%s;\n' % (p, stem)
         new = old + add
         open(f, "w").write(new)
         diffs.append("".join(difflib.unified_diff(old.splitlines(True), new.splitlines(True), rel, rel + " (injected)", n=0)))
